@@ -71,7 +71,7 @@ Definition dirname (s : string) : string :=
 (* data                                                                *)
 
 Definition attrs := list (string * string).  (* Go field name -> canonical dump of its value; absent = zero value *)
-Definition vars := list (string * string).   (* ordered map name -> canonical dump of the ast.Var (without Dir) *)
+Definition vars := list (string * string).   (* ordered map name -> "<Dir>|<canonical dump of the ast.Var>" (see stamp_dir) *)
 
 Definition attr (f : string) (a : attrs) : string :=
   match lookup f a with Some v => v | None => "" end.
@@ -136,7 +136,8 @@ Record variant := {
   v_cmd_dc : list string;     (* ... in Cmd.DeepCopy *)
   v_dep_dc : list string;     (* ... in Dep.DeepCopy *)
   v_keep_rootref : bool;      (* ':'-prefixed deps/cmd targets are kept through every merge and stripped once at the root *)
-  v_declared : bool           (* graph.Merge merges the includes of a file in declared order (else: reverse topological order / edge lists) *)
+  v_declared : bool;          (* graph.Merge merges the includes of a file in declared order (else: reverse topological order / edge lists) *)
+  v_inplace : bool            (* Vars.Merge writes include.Dir into the variable OF THE INCLUDED Taskfile before copying it (else: into the copy) *)
 }.
 
 (* ------------------------------------------------------------------ *)
@@ -183,9 +184,28 @@ Definition rename_ref (v : variant) (ns r : string) : string :=
   | _ => if v_keep_rootref v then (if colon r then r else (ns ++ ":" ++ r)%string) else rename ns r
   end.
 
-(* Vars.Merge (Var.Dir is abstracted away) *)
+(* a variable is dumped as "<Dir>|<value>": ast.Var.Dir, the working directory of a dynamic (sh:) variable *)
+Fixpoint after_bar (s : string) : string :=
+  match s with
+  | EmptyString => EmptyString
+  | String c r => if Ascii.eqb c "|"%char then r else after_bar r
+  end.
+Fixpoint has_bar (s : string) : bool :=
+  match s with
+  | EmptyString => false
+  | String c r => Ascii.eqb c "|"%char || has_bar r
+  end.
+Definition var_value (d : string) : string := if has_bar d then after_bar d else d.
+Definition stamp_dir (dir d : string) : string := (dir ++ "|" ++ var_value d)%string.
+Definition stamp_vars (dir : string) (vs : vars) : vars := map (fun kv => (fst kv, stamp_dir dir (snd kv))) vs.
+
+(* Vars.Merge with a nil include, or a short-form include: values are copied as they are *)
 Definition vars_merge (vs other : vars) : vars :=
   fold_left (fun acc kv => set (fst kv) (snd kv) acc) other vs.
+
+(* Vars.Merge(other, include): a long-form include stamps its Dir on every variable it copies *)
+Definition vars_merge_inc (inc : include) (vs other : vars) : vars :=
+  vars_merge vs (if i_advanced inc then stamp_vars (i_dir inc) other else other).
 
 Definition merge_task (v : variant) (inc : include) (pvars : vars) (name : string) (t0 : task) : string * task :=
   let t := deepcopy_task v t0 in
@@ -258,8 +278,8 @@ Definition tf_merge (v : variant) (t1 t2 : file) (inc : include) : file :=
   if negb (String.eqb (f_version t1) (f_version t2)) then with_err t1 EVersion
   else if f_dotenv t2 then with_err t1 EDotenv
   else
-    let vars' := vars_merge (f_vars t1) (f_vars t2) in
-    let env' := vars_merge (f_env t1) (f_env t2) in
+    let vars' := vars_merge_inc inc (f_vars t1) (f_vars t2) in
+    let env' := vars_merge_inc inc (f_env t1) (f_env t2) in
     let out' := match f_output t2 with EmptyString => f_output t1 | o => o end in
     match tasks_merge v inc vars' (f_tasks t2) (f_tasks t1) with
     | Err e => with_err t1 e
@@ -316,7 +336,7 @@ Definition tpl_env (fs : fsys) (parent : string) : vars :=
   vars_merge (env_of fs) (match lookup parent fs with Some f => f_vars f | None => [] end).
 Definition tpl_var (env : vars) (name default : string) : string :=
   match lookup name env with
-  | Some d => match static_val d with
+  | Some d => match static_val (var_value d) with
               | Some EmptyString => default
               | Some v => v
               | None => default       (* dynamic (sh:) variables are not in the templater's cache *)
@@ -405,6 +425,24 @@ Definition step (v : variant) (st : state) (o : op) : state :=
 Definition run_ops (v : variant) (ops : list op) (st : state) : state :=
   fold_left (step v) ops st.
 
+(* the in-place variant of Vars.Merge: besides the merge into the parent, the vars and env of the
+   INCLUDED Taskfile keep the Dir of a long-form include (when the merge gets as far as Vars.Merge) *)
+Definition reaches_vars (t1 t2 : file) : bool :=
+  match f_err t1, f_err t2 with
+  | None, None => String.eqb (f_version t1) (f_version t2) && negb (f_dotenv t2)
+  | _, _ => false
+  end.
+Definition stamp_file (dir : string) (f : file) : file :=
+  {| f_version := f_version f; f_dotenv := f_dotenv f; f_output := f_output f; f_vars := stamp_vars dir (f_vars f);
+     f_env := stamp_vars dir (f_env f); f_includes := f_includes f; f_tasks := f_tasks f; f_err := f_err f |}.
+Definition step_ip (v : variant) (st : state) (o : op) : state :=
+  let st1 := step v st o in
+  if i_advanced (o_inc o) && reaches_vars (st (o_parent o)) (st (o_child o))
+  then upd st1 (o_child o) (stamp_file (i_dir (o_inc o)) (st (o_child o)))
+  else st1.
+Definition run_ops_ip (v : variant) (ops : list op) (st : state) : state :=
+  fold_left (step_ip v) ops st.
+
 (* edge data between p and x: the include statements of p that resolved to x, in declared order *)
 Definition incs_between (g : graph) (p x : string) : list include :=
   map fst (filter (fun e => String.eqb (snd e) x) (out_of g p)).
@@ -450,7 +488,7 @@ Definition finish (v : variant) (f : file) : file :=
 
 (* pi: the result of graph.TopologicalSort (Go map iteration); s: edge-data order *)
 Definition merge_all (v : variant) (g : graph) (pi : list string) (s : sigma) : file :=
-  finish v (run_ops v (ops_of v g pi s) (init_state g) (hd "" pi)).
+  finish v ((if v_inplace v then run_ops_ip else run_ops) v (ops_of v g pi s) (init_state g) (hd "" pi)).
 
 (* ------------------------------------------------------------------ *)
 (* valid orders (executable)                                           *)
@@ -492,8 +530,17 @@ Fixpoint first_err_ops (v : variant) (ops : list op) (st : state) : option err :
       | None => first_err_ops v r (upd st (o_parent o) f)
       end
   end.
+Fixpoint first_err_ops_ip (v : variant) (ops : list op) (st : state) : option err :=
+  match ops with
+  | [] => None
+  | o :: r =>
+      match f_err (tf_merge v (st (o_parent o)) (st (o_child o)) (o_inc o)) with
+      | Some e => Some e
+      | None => first_err_ops_ip v r (step_ip v st o)
+      end
+  end.
 Definition merge_err (v : variant) (g : graph) (pi : list string) (s : sigma) : option err :=
-  first_err_ops v (ops_of v g pi s) (init_state g).
+  (if v_inplace v then first_err_ops_ip else first_err_ops) v (ops_of v g pi s) (init_state g).
 
 (* all orders of the edge data *)
 Fixpoint insert_all {A} (x : A) (l : list A) : list (list A) :=
